@@ -954,4 +954,242 @@ theorem productionSpec_nonneg (pow : K → K → K) (hp : PowOK pow) (c : CropIn
   · exact mul_nonneg (mul_nonneg (grownEffSpec_nonneg pow hp c w i) (by linarith)) (wasteFactor_nonneg _ hw)
   · exact le_rfl
 
+
+/-! ### variants of the inputs: scaled baseline, relocation on/off, expansion on/off -/
+
+def setBaseline (c : CropIn K) (b : K) : CropIn K := { c with baseline := b }
+def setRelocation (c : CropIn K) (r : Bool) : CropIn K := { c with relocation := r }
+def setRatioArea (c : CropIn K) (a : K) : CropIn K := { c with ratioArea := a }
+
+theorem monthSpec_scale (c : CropIn K) (k : K) (i : Nat) :
+    monthSpec (setBaseline c (k * c.baseline)) i = k * monthSpec c i := by
+  unfold monthSpec setBaseline annualYield
+  simp only
+  generalize (4e6 : K) = a1; generalize (1e9 : K) = a2; generalize (seedPercent : K) / 100.0 = a3
+  ring
+
+theorem productionSpec_scale (pow : K → K → K) (c : CropIn K) (ghf : Nat → K) (k : K) (i : Nat) :
+    productionSpec pow (setBaseline c (k * c.baseline)) ghf i = k * productionSpec pow c ghf i := by
+  have hm := monthSpec_scale c k i
+  unfold productionSpec grownEffSpec grownSpec noRelocSpec
+  have e1 : ratioYearSpec (setBaseline c (k * c.baseline)) i = ratioYearSpec c i := rfl
+  have e2 : expSpec (setBaseline c (k * c.baseline)) = expSpec c := rfl
+  have e3 : areaRampSpec (setBaseline c (k * c.baseline)) i = areaRampSpec c i := rfl
+  rw [hm, e1, e2, e3]
+  show (if c.addOutdoor = true then
+      (if c.relocation = true ∧ c.harvestDuration + c.rotationDelay ≤ i then _ else _) * _ * (1 - c.waste / 100.0)
+    else 0) = _
+  generalize (1 - c.waste / 100.0 : K) = a1
+  split_ifs <;> ring
+
+theorem monthsFromJanuary_scale (b k : K) (season : List K) :
+    monthsFromJanuary (k * b) season = (monthsFromJanuary b season).map (k * ·) := by
+  unfold monthsFromJanuary annualYield
+  rw [List.map_map]
+  apply List.map_congr_left; intro s _
+  simp only [Function.comp]
+  generalize (4e6 : K) = a1; generalize (1e9 : K) = a2; generalize (seedPercent : K) / 100.0 = a3
+  ring
+
+theorem lsum_cycle_scale (sm : Nat) (b k : K) (season : List K) :
+    lsum (monthsCycle sm (k * b) season) = k * lsum (monthsCycle sm b season) := by
+  unfold monthsCycle
+  simp only [monthsFromJanuary_scale, ← List.map_drop, ← List.map_take, ← List.map_append]
+  exact lsum_map_mul _ k
+
+theorem ghYieldSpec_scale (pow : K → K → K) (c : CropIn K) (g : GhIn K) (k : K) (i : Nat) :
+    ghYieldSpec pow (setBaseline c (k * c.baseline)) g i = k * ghYieldSpec pow c g i := by
+  unfold ghYieldSpec
+  have e1 : ratioYearSpec (setBaseline c (k * c.baseline)) i = ratioYearSpec c i := rfl
+  have e2 : expSpec (setBaseline c (k * c.baseline)) = expSpec c := rfl
+  have e3 : monthsCycle (setBaseline c (k * c.baseline)).startMonth (setBaseline c (k * c.baseline)).baseline
+      (setBaseline c (k * c.baseline)).season = monthsCycle c.startMonth (k * c.baseline) c.season := rfl
+  have e4 : (setBaseline c (k * c.baseline)).waste = c.waste := rfl
+  rw [e1, e2, e3, e4, lsum_cycle_scale]
+  generalize (1 - c.waste / 100.0 : K) = a1; generalize (1 - g.wasteRetail / 100.0 : K) = a2
+  generalize (1 + g.gainPct / 100.0 : K) = a3; generalize (12.0 : K) = a4
+  split_ifs <;> ring
+
+theorem ghCropsSpec_scale (pow : K → K → K) (c : CropIn K) (g : GhIn K) (k : K) (i : Nat) :
+    ghCropsSpec pow (setBaseline c (k * c.baseline)) g i = k * ghCropsSpec pow c g i := by
+  unfold ghCropsSpec
+  rw [ghYieldSpec_scale]; ring
+
+theorem cropWF_scale (c : CropIn K) (w : CropWF c) (k : K) (hk : 0 ≤ k) : CropWF (setBaseline c (k * c.baseline)) :=
+  { start := w.start, season_len := w.season_len, ratios_len := w.ratios_len, season_nonneg := w.season_nonneg,
+    season_sum := w.season_sum, hb_le := w.hb_le, baseline := mul_nonneg hk w.baseline, ratios := w.ratios,
+    r1 := w.r1, exponent := w.exponent, horizon := w.horizon, ramp := w.ramp }
+
+/-- relocation: from `harvest duration + rotation delay` on the relocated series is used; it is never
+    below the plain one -/
+theorem relocation_never_lowers (pow : K → K → K) (hp : PowOK pow) (c : CropIn K)
+    (w : CropWF (setRelocation c true)) (ghf : Nat → K) (i : Nat) (hf : ghf i ≤ 1) (hw : c.waste ≤ 100) :
+    productionSpec pow (setRelocation c false) ghf i ≤ productionSpec pow (setRelocation c true) ghf i := by
+  have hm : 0 ≤ monthSpec c i := monthSpec_nonneg (setRelocation c true) i w.season_nonneg w.baseline
+  have hr : 0 ≤ ratioYearSpec c i := ratioYearSpec_nonneg c i
+  have hle := noReloc_le_grown pow hp (setRelocation c true) w i
+  have hwf := wasteFactor_nonneg c.waste hw
+  have h1f : 0 ≤ 1 - ghf i := by linarith
+  unfold productionSpec grownEffSpec
+  show (if c.addOutdoor = true then
+      (if false = true ∧ c.harvestDuration + c.rotationDelay ≤ i then grownSpec pow (setRelocation c false) i
+        else noRelocSpec (setRelocation c false) i) * (1 - ghf i) * (1 - c.waste / 100.0) else 0)
+    ≤ (if c.addOutdoor = true then
+      (if true = true ∧ c.harvestDuration + c.rotationDelay ≤ i then grownSpec pow (setRelocation c true) i
+        else noRelocSpec (setRelocation c true) i) * (1 - ghf i) * (1 - c.waste / 100.0) else 0)
+  have e : noRelocSpec (setRelocation c false) i = noRelocSpec (setRelocation c true) i := rfl
+  have hfalse : ¬ (false = true ∧ c.harvestDuration + c.rotationDelay ≤ i) := by simp
+  rw [if_neg hfalse, e]
+  by_cases h1 : c.addOutdoor = true
+  · rw [if_pos h1, if_pos h1]
+    by_cases h3 : c.harvestDuration + c.rotationDelay ≤ i
+    · rw [if_pos ⟨rfl, h3⟩]
+      exact mul_le_mul_of_nonneg_right (mul_le_mul_of_nonneg_right hle h1f) hwf
+    · rw [if_neg (fun h => h3 h.2)]
+  · rw [if_neg h1, if_neg h1]
+
+/-- cropland expansion multiplies the relocated series by a ramp that is at least one -/
+theorem expansion_never_lowers (pow : K → K → K) (hp : PowOK pow) (c : CropIn K) (w : CropWF c)
+    (ghf : Nat → K) (i : Nat) (hf : ghf i ≤ 1) (hw : c.waste ≤ 100) :
+    productionSpec pow (setRatioArea c 1) ghf i ≤ productionSpec pow c ghf i := by
+  have hm : 0 ≤ monthSpec c i := monthSpec_nonneg c i w.season_nonneg w.baseline
+  have hr : 0 ≤ ratioYearSpec c i := ratioYearSpec_nonneg c i
+  have hg := relocGain_nonneg pow hp (expSpec c) _ (expSpec_range c w) hr
+  have ha := areaRampSpec_ge_one c i
+  have hwf := wasteFactor_nonneg c.waste hw
+  have h1f : 0 ≤ 1 - ghf i := by linarith
+  have ea : areaRampSpec (setRatioArea c 1) i = 1 := by
+    rw [areaRampSpec_eq]; unfold setRatioArea; simp
+  have eg : grownSpec pow (setRatioArea c 1) i = monthSpec c i * relocGain pow (expSpec c) (ratioYearSpec c i) := by
+    unfold grownSpec; rw [ea, mul_one]; rfl
+  have hgg : grownSpec pow (setRatioArea c 1) i ≤ grownSpec pow c i := by
+    rw [eg]; unfold grownSpec
+    have : 0 ≤ monthSpec c i * relocGain pow (expSpec c) (ratioYearSpec c i) := mul_nonneg hm hg
+    nlinarith
+  unfold productionSpec grownEffSpec
+  show (if c.addOutdoor = true then
+      (if c.relocation = true ∧ c.harvestDuration + c.rotationDelay ≤ i then grownSpec pow (setRatioArea c 1) i
+        else noRelocSpec (setRatioArea c 1) i) * (1 - ghf i) * (1 - c.waste / 100.0) else 0) ≤ _
+  have e : noRelocSpec (setRatioArea c 1) i = noRelocSpec c i := rfl
+  split_ifs with h1 h2
+  · exact mul_le_mul_of_nonneg_right (mul_le_mul_of_nonneg_right hgg h1f) hwf
+  · rw [e]
+  · exact le_rfl
+
+
+/-! ## fish -/
+
+theorem eq_map_getD {β : Type} (l : List β) (d : β) : l = (List.range l.length).map fun i => l.getD i d := by
+  apply List.ext_getElem?; intro i
+  rw [getElem?_map_range]
+  split_ifs with h
+  · rw [List.getD_eq_getElem?_getD, List.getElem?_eq_getElem h]; rfl
+  · exact List.getElem?_eq_none (by omega)
+
+theorem fishSeries_ok (add : Bool) (n : Nat) (annual wd wr : K) (pct : List K) :
+    fishSeries add n annual wd wr pct
+      = (List.range (Nat.min n pct.length)).map (fishSpec add annual wd wr fun i => pct.getD i 0) := by
+  unfold fishSeries fishSpec fishKcalsMonthly
+  conv_lhs => rw [eq_map_getD pct 0]
+  rw [take_map_range]
+  cases add
+  · simp only [Bool.false_eq_true, if_false, List.map_map]
+    apply List.map_congr_left; intro i _; rfl
+  · simp only [if_true, List.map_map]
+    apply List.map_congr_left; intro i _; rfl
+
+theorem fishSpec_nonneg (add : Bool) (annual wd wr : K) (pct : Nat → K) (i : Nat) (ha : 0 ≤ annual)
+    (hp : 0 ≤ pct i) (hwd : wd ≤ 100) (hwr : wr ≤ 100) : 0 ≤ fishSpec add annual wd wr pct i := by
+  unfold fishSpec
+  split_ifs
+  · have h1 := wasteFactor_nonneg wd hwd
+    have h2 := wasteFactor_nonneg wr hwr
+    have h3 : (0 : K) ≤ 4e6 := by norm_num
+    have h4 : (0 : K) ≤ 1e9 := by norm_num
+    have h5 : (0 : K) ≤ 12.0 := by norm_num
+    have h6 : (0 : K) ≤ 100.0 := by norm_num
+    exact mul_nonneg (div_nonneg hp h6)
+      (div_nonneg (div_nonneg (mul_nonneg (mul_nonneg ha (mul_nonneg h1 h2)) h3) h4) h5)
+  · exact le_rfl
+
+theorem fishSpec_scale (add : Bool) (annual wd wr k : K) (pct : Nat → K) (i : Nat) :
+    fishSpec add (k * annual) wd wr pct i = k * fishSpec add annual wd wr pct i := by
+  unfold fishSpec
+  generalize (1 - wd / 100.0 : K) = a1; generalize (1 - wr / 100.0 : K) = a2
+  generalize (4e6 : K) = a3; generalize (1e9 : K) = a4; generalize (12.0 : K) = a5; generalize (100.0 : K) = a6
+  split_ifs <;> ring
+
+theorem yearlyFish_length : (yearlyFishReduction : List K).length = 16 := rfl
+
+theorem fishPercentNW_ok : (fishPercentNW : List K) = (List.range 192).map fishPercentNWSpec := by
+  apply eq_map_range
+  intro i
+  unfold fishPercentNW fishPercentNWSpec
+  simp only [yearlyFish_length]
+  rw [List.getElem?_map, List.getElem?_append,
+    length_flatMap_blocks _ 12 (fun k => length_of_getElem? _ 12 _ (getElem?_linspaceOpen _ _ 12)),
+    getElem?_flatMap_blocks _ 12 (fun k => length_of_getElem? _ 12 _ (getElem?_linspaceOpen _ _ 12)),
+    List.getElem?_replicate, getElem?_linspaceOpen]
+  have h15 : (yearlyFishReduction : List K).getD (16 - 1) 0 = 0 := by
+    unfold yearlyFishReduction; rfl
+  rcases Nat.lt_or_ge i 180 with h | h
+  · have h1 : i < (16 - 1) * 12 := by omega
+    have h2 : i % 12 < 12 := Nat.mod_lt _ (by norm_num)
+    have h3 : i < 192 := by omega
+    rw [if_pos h1, if_pos h1, if_pos h2, if_pos h3, if_pos h]
+    rfl
+  · have h1 : ¬ i < (16 - 1) * 12 := by omega
+    rw [if_neg h1]
+    rcases Nat.lt_or_ge i 192 with h3 | h3
+    · have : i - (16 - 1) * 12 < 12 := by omega
+      rw [if_pos this, if_pos h3, h15, if_neg (by omega)]; rfl
+    · have : ¬ i - (16 - 1) * 12 < 12 := by omega
+      rw [if_neg this, if_neg (by omega)]; rfl
+
+/-! ## feed and biofuel demand -/
+
+theorem demandSeries_ok (n d : Nat) (annual : K) (ha : 0 ≤ annual) (hd : d ≤ n) :
+    demandSeries n d annual = .ok ((List.range n).map (demandSpec d annual)) := by
+  unfold demandSeries
+  have hm : ¬ demandMonthly annual < 0 := by
+    unfold demandMonthly
+    have h1 : (0 : K) ≤ 12.0 := by norm_num
+    have h2 : (0 : K) ≤ 4e6 := by norm_num
+    have h3 : (0 : K) ≤ 1e9 := by norm_num
+    exact not_lt.mpr (div_nonneg (mul_nonneg (div_nonneg ha h1) h2) h3)
+  rw [if_neg hm]
+  congr 1
+  have hn : n = d + (n - d) := by omega
+  conv_rhs => rw [hn]
+  rw [← append_map_range, replicate_eq_map_range, replicate_eq_map_range]
+  congr 1
+  · apply List.map_congr_left; intro i hi
+    unfold demandSpec demandMonthly; rw [if_pos (List.mem_range.mp hi)]
+  · apply List.map_congr_left; intro i hi
+    unfold demandSpec; rw [if_neg (by omega)]
+
+/-- the shape outside `duration ≤ NMONTHS`: the list is as long as the duration -/
+theorem demandSeries_length (n d : Nat) (annual : K) (l : List K) (h : demandSeries n d annual = .ok l) :
+    l.length = d + (n - d) := by
+  unfold demandSeries at h
+  split_ifs at h
+  injection h with h; rw [← h]; simp
+
+theorem demandSpec_nonneg (d : Nat) (annual : K) (i : Nat) (ha : 0 ≤ annual) : 0 ≤ demandSpec d annual i := by
+  unfold demandSpec
+  split_ifs
+  · have h1 : (0 : K) ≤ 12.0 := by norm_num
+    have h2 : (0 : K) ≤ 4e6 := by norm_num
+    have h3 : (0 : K) ≤ 1e9 := by norm_num
+    exact div_nonneg (mul_nonneg (div_nonneg ha h1) h2) h3
+  · exact le_rfl
+
+theorem demandSpec_scale (d : Nat) (annual k : K) (i : Nat) : demandSpec d (k * annual) i = k * demandSpec d annual i := by
+  unfold demandSpec
+  generalize (4e6 : K) = a3; generalize (1e9 : K) = a4; generalize (12.0 : K) = a5
+  split_ifs <;> ring
+
+theorem demandSpec_zero_after (d : Nat) (annual : K) (i : Nat) (h : d ≤ i) : demandSpec d annual i = 0 := by
+  unfold demandSpec; rw [if_neg (by omega)]
+
 end Allfed.Proofs.Supply
